@@ -65,6 +65,9 @@ func C12(run *mon.Run) {
 				defer func() { <-sem }()
 				rr := run.Rand(fmt.Sprintf("len-%d-%d", l, a.alg))
 				seeds := [][]byte{make([]byte, l), bytes.Repeat([]byte{0xff}, l), seqBytes(l)}
+				if l == 0 {
+					seeds = append(seeds, nil)
+				}
 				for i := 0; i < nRand; i++ {
 					seeds = append(seeds, mon.RandBytes(rr, l))
 				}
